@@ -670,3 +670,160 @@ Example C04_similar_tokens_interleaved :
   flat_map o_ret (model_obs mix_cfg mix_es) = [(0, 0); (1, 0)] /\
   c04_class_x mix_cfg mix_es (model_obs mix_cfg mix_es) = 0%N.
 Proof. exact mix_model_interleaved. Qed.
+
+(* ------------------------------------------------------------------------ *)
+(* Request context deadlines (Blockwise/Deadline.v, ProofsDeadline.v) and the clauses of the property *)
+(* that need the clock (Blockwise/SpecTime.v): a Do that returns WITHOUT error presents its exchange  *)
+(* as complete; 2.31 Continue acknowledges one block of an upload that is still under way.             *)
+From GoCoap Require Import Blockwise.SpecTime Blockwise.Deadline Blockwise.ProofsDeadline
+  Blockwise.Reader Blockwise.ProofsReader Blockwise.ProofsLivelock.
+
+(* The application may start a Do with context.WithTimeout(d) (deadline table: exchange -> d).  Do
+   stores the request valid until that deadline, the reassembly entry of the response is valid until
+   getValidUntil(sent request).  Without deadlines the run is the run of Timed.v: every theorem
+   above about [trun] / [model_obs_t] is a theorem about the model the correspondence compares with. *)
+Theorem C04_deadline_conservative : forall c es, drun c [] (dinit c) es = trun c (tinit c) es.
+Proof. exact deadline_conservative. Qed.
+Print Assumptions C04_deadline_conservative.
+
+(* One Handle step, ANY state, message, application, time, context deadline: a LIVE element of the
+   sending cache under an application token keeps its validity deadline and its data.  It can only be
+   removed, and only together with an error callback or a delivery for its own token, or - a response
+   (code above DELETE) - with its last block.  In particular serving the next block of an upload
+   (continueSendingMessage) leaves the element Do stored exactly as it was: the statement seeded
+   regression C04-6 falsifies (it re-stamped the element with now + transfer timeout). *)
+Theorem C04_handle_keeps_live_sending_element : forall app now sctx e k dl m,
+  counters_ok e -> 0 <= k < FRESH -> craw (tsnd e) k = Some (dl, m) -> expired now dl = false ->
+  forall r,
+  let '(e', w, d, nerr) := dhandle app now sctx e r in
+  (craw (tsnd e') k = Some (dl, m) \/
+   (mtok r = k /\ (nerr = 1 \/ d <> [] \/ DELETE < mcode m))) /\ counters_ok e'.
+Proof. exact dhandle_snd. Qed.
+Print Assumptions C04_handle_keeps_live_sending_element.
+
+(* EVERY script of the two-party system (start / deliver any / dup / drop / replay / bump / time-out /
+   expire / Age d / Sweep side, in any order and number), every well-formed configuration, every deadline
+   table: in every reachable world, for every exchange started by Do that is in good standing
+   (SpecTime.standing: since its start nothing was swept at A, no error was reported and nothing handed
+   over for its token, it has not returned) and whose time has not run out, A's sending cache holds the
+   request under its token valid until exactly the instant Do gave it: start + request deadline, or
+   start + transfer timeout for a request without deadline. *)
+Theorem C04_do_element_keeps_its_deadline : forall c, cfg_wf c -> forall dls es,
+  let '(w, s) := dreach c dls (dinit c) g_init es in
+  forall t dl, zassoc (g_ok s) t = Some dl -> tnow (dw w) <= dl ->
+    exists x, In x (cexch c) /\ xkind x = 0 /\ xtok x = t /\
+              craw (tsnd (twa (dw w))) t = Some (dl, request_of x).
+Proof. exact do_element_keeps_its_deadline. Qed.
+Print Assumptions C04_do_element_keeps_its_deadline.
+
+(* FULL statement (false of the faithful model, see the refutation below): on the trace of every script
+   no Do returns ok with the 2.31 Continue that just arrived, i.e.
+     bogus_continue_class c dls es (model_obs_d c dls es) = 0.
+   PROVED PART: it never happens to an exchange in good standing (class 10) - every script, every fault,
+   ageing and sweeps at any point, every deadline table.  The excluded class 11 is exactly "the state Do
+   keeps for the exchange was lost while the Do still waits" (KNOWN_FINDINGS.txt). *)
+Theorem C04_no_bogus_continue_partial : forall c, cfg_wf c -> forall dls es,
+  bogus_continue_class c dls es (model_obs_d c dls es) <> 10%N.
+Proof. exact no_bogus_continue_in_good_standing. Qed.
+Print Assumptions C04_no_bogus_continue_partial.
+
+(* REFUTATION of the full statement, two histories (both replayed on the implementation: canonical cases
+   of the harness): (1) an upload of 64 bytes without request deadline over a slow link - 3700 units pass
+   after two acknowledged blocks, transfer timeout 3600 -: the element Do stored has expired, the next
+   2.31 is handed to A's application and the Do returns it; (2) region O2 (the sender fails on the first
+   2.31 and removes the element) followed by a duplicate of that 2.31.  (3) Inside a request deadline of
+   9000 the slow upload of (1) goes on: block 3 is sent, nothing is handed over, no Do returns. *)
+Theorem C04_do_returns_continue_refuted :
+  (cfg_wf slow_cfg /\ bogus_continue_class slow_cfg [] slow_es (model_obs_d slow_cfg [] slow_es) = 11%N) /\
+  (cfg_wf o2dup_cfg /\ bogus_continue_class o2dup_cfg [] o2dup_es (model_obs_d o2dup_cfg [] o2dup_es) = 11%N) /\
+  (bogus_continue_class slow_cfg [(0%nat, 9000)] slow_es (model_obs_d slow_cfg [(0%nat, 9000)] slow_es) = 0%N /\
+   exists o, nth_error (model_obs_d slow_cfg [(0%nat, 9000)] slow_es) 7 = Some o /\
+             o_ret o = [] /\ o_deliv o = [] /\
+             match o_wire o with Some (true, m) => pb1 m = Some (0, 3, false) | _ => False end).
+Proof. exact do_returns_continue_after_state_lost. Qed.
+Print Assumptions C04_do_returns_continue_refuted.
+
+(* ------------------------------------------------------------------------ *)
+(* The body behind an io.ReadSeeker (Blockwise/Reader.v).  The io.Reader contract allows a Read to    *)
+(* return fewer bytes than asked for with a nil error.  io.ReadFull over EVERY reader that keeps the   *)
+(* contract - any cutting of the data into reads, io.EOF with the last bytes or after them - returns   *)
+(* exactly the slice of the body, short only at the end of the body.                                   *)
+Theorem C04_read_full_exact : forall r, chunk_ok r -> forall pos want, 0 <= pos -> 0 <= want ->
+  forall fuel, want < Z.of_nat fuel ->
+  read_full fuel r pos want =
+    (slice r pos want,
+     if want <=? blen (slice r pos want) then RNil else if 0 <? blen (slice r pos want) then RUnexpectedEOF else REOF).
+Proof. exact read_full_exact. Qed.
+Print Assumptions C04_read_full_exact.
+
+(* createSendingMessage as written (Seek, io.ReadFull, the two EOF errors forgiven at the end of the
+   body) over such a reader IS Model.create_sending over the byte list: every block a sender serves -
+   payload, NUM, M, Size option - and hence every theorem above is independent of the reader the
+   application supplies.  (Non-empty buffer: BERT needs a maximum message size >= 1024.) *)
+Theorem C04_create_sending_reader_independent : forall fuel rd orig maxszx maxmsg b,
+  chunk_ok rd -> rdata rd = mbody orig ->
+  0 <= bnum b -> 0 <= size (Z.min (bszx b) maxszx) ->
+  0 < buffer_size (Z.min (bszx b) maxszx) maxmsg -> buffer_size (Z.min (bszx b) maxszx) maxmsg < Z.of_nat fuel ->
+  create_sending_rd fuel rd orig maxszx maxmsg b = create_sending orig maxszx maxmsg b.
+Proof. exact create_sending_rd_exact. Qed.
+Print Assumptions C04_create_sending_reader_independent.
+
+Theorem C04_do_first_block_reader_independent : forall fuel rd buflen,
+  chunk_ok rd -> 0 <= buflen -> 0 < blen (rdata rd) -> buflen < Z.of_nat fuel ->
+  do_first_block_rd fuel rd buflen = Some (firstn (Z.to_nat buflen) (rdata rd)).
+Proof. exact do_first_block_rd_exact. Qed.
+Print Assumptions C04_do_first_block_reader_independent.
+
+(* The variant with ONE Read (seeded regression C04-7) is not: 300 bytes behind pages of 100 bytes (a
+   reader that keeps the contract), blocks of 16: block 6 is served with 4 bytes and M=1. *)
+Theorem C04_single_read_depends_on_reader :
+  chunk_ok (paged (gen_body 13 300) 100) /\
+  (exists sm, create_sending straddle_msg 0 1152 straddle_blk = Some (sm, true) /\ blen (mbody sm) = 16) /\
+  create_sending_rd 17 (paged (gen_body 13 300) 100) straddle_msg 0 1152 straddle_blk
+    = create_sending straddle_msg 0 1152 straddle_blk /\
+  (exists sm, create_sending_one_read (paged (gen_body 13 300) 100) straddle_msg 0 1152 straddle_blk = Some (sm, true) /\
+              blen (mbody sm) = 4 /\ mb2 sm = Some {| bszx := 0; bnum := 6; bmore := true |}).
+Proof. exact single_read_depends_on_reader. Qed.
+Print Assumptions C04_single_read_depends_on_reader.
+
+(* ------------------------------------------------------------------------ *)
+(* "never by hanging" (SpecTime.livelock, class 12): in a loss-free script the peers fall silent.  Once *)
+(* nothing is in flight after N deliveries, N within four times the round-trip budget of the bodies,   *)
+(* NO loss-free script of that exchange, however long, ends with a message still put on the wire.      *)
+Theorem C04_no_livelock_after_quiescence : forall c i N,
+  flight (run_w c (init c) (ff_script i N)) = [] -> Z.of_nat N <= 4 * trip_budget c ->
+  forall n, livelock c (map Ev (ff_script i n)) (model_obs_d c [] (map Ev (ff_script i n))) = false.
+Proof. exact no_livelock_after_quiescence. Qed.
+Print Assumptions C04_no_livelock_after_quiescence.
+
+(* Do GET, every body length (O3 included), every SZX pair incl. BERT with max >= 1024: every script
+   length *)
+Theorem C04_no_livelock_download : forall c i x r,
+  nth_error (cexch c) i = Some x -> xkind x = 0 -> xcode x = GET -> xlen x = 0 ->
+  nth_error (cres c) (Z.to_nat (xpath x)) = Some r ->
+  0 <= cszxA c <= 7 -> 0 <= cszxB c <= 7 -> (cszxB c = 7 -> 1024 <= cmaxB c) ->
+  forall n, livelock c (map Ev (ff_script i n)) (model_obs_d c [] (map Ev (ff_script i n))) = false.
+Proof. exact no_livelock_download. Qed.
+Print Assumptions C04_no_livelock_download.
+
+(* Do POST / PUT with a small response, every body length, every SZX pair outside O2 *)
+Theorem C04_no_livelock_upload : forall c i x r,
+  nth_error (cexch c) i = Some x -> xkind x = 0 -> xcode x = 2 \/ xcode x = 3 -> 0 <= xlen x ->
+  0 <= cszxA c <= 7 -> 0 <= cszxB c <= 7 -> 0 <= cmaxA c -> (cszxA c = 7 -> 1024 <= cmaxA c) ->
+  nth_error (cres c) (Z.to_nat (xpath x)) = Some r -> rlen r < 16 ->
+  ~ Up.o2_region c (xlen x) ->
+  forall n, livelock c (map Ev (ff_script i n)) (model_obs_d c [] (map Ev (ff_script i n))) = false.
+Proof. exact no_livelock_upload. Qed.
+Print Assumptions C04_no_livelock_upload.
+
+(* Non-vacuity of the clauses of SpecTime.v: hand-made observed traces evaluate to class 10 (the Do of an upload
+   returns ok with the 2.31 that just arrived, 3700 units after its start, request deadline 9000), 11 (the same
+   without request deadline), no class (request deadline 2000: the caller is overdue), 12 (a loss-free script of 60
+   deliveries, budget 4 * 6, still emitting blocks) and 0 (the same script cut after 19 deliveries). *)
+Example C04_spec_time_classes_reachable :
+  c04_class_t reach_cfg [(0%nat, 9000)] reach_es reach_os (untimed reach_es) = 10%N /\
+  c04_class_t reach_cfg [] reach_es reach_os (untimed reach_es) = 11%N /\
+  c04_class_t reach_cfg [(0%nat, 2000)] reach_es reach_os (untimed reach_es) = 0%N /\
+  c04_class_t reach_cfg [] reach_long_es reach_long_os (untimed reach_long_es) = 12%N /\
+  c04_class_t reach_cfg [] (firstn 20 reach_long_es) (firstn 20 reach_long_os) (untimed (firstn 20 reach_long_es)) = 0%N.
+Proof. exact spec_time_classes_reachable. Qed.
